@@ -20,7 +20,7 @@ META = {
 }
 SPEC = "specs/SigningDone"
 PKG = "pkg/tbtc"
-CONFIG = {"seats": 3, "included": [1, 2], "owner": [1, 2, 3], "keys": 4, "timeout": 10}
+CONFIG = {"seats": 3, "included": [1, 3], "owner": [1, 2, 3], "keys": 4, "timeout": 10}
 INVS = ["DoneOnlyIncluded", "DoneCommonSignature", "DoneEndBlock", "DoneJustified", "ConfirmedAuthentic"]
 
 
